@@ -136,11 +136,12 @@ impl<TR: ToTokens> FnDelegationCodegen<'_, TR> {
 
         let opt_dot_await = trait_fn.opt_dot_await(span);
         let attrs = &trait_fn.attrs;
+        let opt_generic_args = &trait_fn.fn_generic_args;
 
         quote_spanned! { span=>
             #(#attrs)*
             #trait_fn_sig {
-                #opt_self_scoping #fn_ident(#opt_self_comma #(#arguments),*) #opt_dot_await
+                #opt_self_scoping #fn_ident #opt_generic_args (#opt_self_comma #(#arguments),*) #opt_dot_await
             }
         }
     }
